@@ -335,4 +335,9 @@ theorem getInfo_written (env : Env) (E : Bytes → Bytes) (ext : String) (game :
     simp only [this, endingOf]
   rw [hplay]
 
+/-- the time field of a packet is carried along, never interpreted: handling does not depend on it
+(any 32 bits: NaN, infinities, negative values) -/
+theorem stepNet_time_irrelevant (jsonOk : Bytes → Bool) (cfg : Config) (w : World) (np : NetPacket) (t : Nat) :
+    stepNet jsonOk cfg w { np with time := t } = stepNet jsonOk cfg w np := rfl
+
 end ReplayModel.C02
